@@ -218,7 +218,10 @@ def rerun_groups(results, max_per_tree=40, rng=None):
                 ds = [depth[p] + 1 for p in e["prev"].values() if p in depth]
                 if ds and i not in olds:
                     depth[i] = min(ds)
-            stale = [depth[i] for i, e in enumerate(fin_obs["seq"]) if e["term"] and i in depth and depth[i] > 0]
+            # ... among the records that existed when the rerun was requested; later records that descend
+            # from a superseded execution were started from staging it left behind (S14 as well)
+            stale = [depth[i] for i, e in enumerate(fin_obs["seq"])
+                     if e["term"] and i in depth and depth[i] > 0 and i < len(pre["seq"])]
             picked.append((n, sched, fates, bool(left), min(stale) if stale else 99))
         if len(picked) > max_per_tree:
             picked = rng.sample(picked, max_per_tree)
